@@ -168,6 +168,9 @@ fn verify<A: Alphabet, C: PositiveLength>(step: usize, what: &str, s: &StripedSe
     if s.len() != l {
         return fail("len", format!("len() = {} expected {}", s.len(), l));
     }
+    if s.is_empty() != (l == 0) {
+        return fail("is_empty", format!("is_empty() = {} for a sequence of {} symbols ({} look-ahead rows)", s.is_empty(), l, wrap));
+    }
     if s.wrap() != wrap {
         return fail("wrap", format!("wrap() = {} expected {}", s.wrap(), wrap));
     }
